@@ -50,11 +50,13 @@ RX = {
     101: '65000:.*', 102: '6500[01]:100', 103: '^65000:', 104: ':1', 105: '.*:666$', 106: '65001:1..',
     # ext community regexes
     201: '^rt:65000:.*', 202: '^soo:', 203: 'rt:.*:100$', 204: 'encap:8', 205: 'validation:invalid',
+    206: 'validation:valid$', 207: 'validation:not-found', 208: '^rt:10\\.0\\.0\\.1:7$', 209: 'lb:65000:0', 210: '^soo:65000:1$', 211: '^rt:65000:100$',
     # large community regexes
-    301: '^65000:.*:1$', 302: '65000:1:.*', 303: ':2:',
+    301: '^65000:.*:1$', 302: '65000:1:.*', 303: ':2:', 304: '^4294967295:4294967295:4294967295$',
     # as-path regexes (the code never evaluates these: known finding C14-1)
     401: '65001', 402: '^65001 6500[0-9]', 403: '_6500[12]_', 404: '^$', 405: '\\{65001,', 406: '^\\(6500[0-9]', 407: '65002$',
     408: '_65004_.*_65001$', 409: '^[0-9]+$', 410: '\\[.*\\]', 411: ' $',
+    412: '_99999999999_',     # a single form whose number does not fit u32: SingleAsPathMatch::new gives it to the regex branch
 }
 def rx_entry(i): return [1, i, list(RX[i].encode())]
 
